@@ -3,7 +3,8 @@
    (Fourier part) and C18/ModelW.v (wavelet bookkeeping), tied to /repo by the
    correspondence shards (C18/Corr.v).  Carrier: R; [cx] = R * R. *)
 From Coq Require Import Reals List Bool Arith.
-From Verif Require Import Base.Num C18.Model C18.ModelW C18.ProofsGrid C18.ProofsDFT C18.ProofsCx.
+From Verif Require Import Base.Num Lib.Axis C18.Model C18.ModelW C18.ProofsGrid C18.ProofsDFT C18.ProofsCx
+  C18.ProofsAxis C18.ProofsFT C18.ProofsTrue C18.ProofsW.
 Import ListNotations.
 Local Open Scope R_scope.
 
@@ -95,3 +96,78 @@ Theorem true_phase_map_laws :
   /\ (forall r, 0 < r < 2 -> cis_true r <> c1).
 Proof. exact (conj cis_true_add (conj cis_true_0 (conj cis_true_2 cis_true_prim))). Qed.
 Print Assumptions true_phase_map_laws.
+
+(* D3: N-d.  DiscreteFourierTransformInverse(sign -s) o DiscreteFourierTransform(sign s) = id on
+   complex arrays of EVERY shape, for every list of axes (any subset, any order) and both
+   signs.  (cis_true a = exp(i pi a); dft_forward/dft_inverse with halfcomplex = false.) *)
+Theorem dft_nd_inverse_recovers_input : forall (shape axes : list nat) (sg : R) (x : list (@cx R)),
+  sg = 1 \/ sg = -1 ->
+  (forall ax, In ax axes -> (ax < length shape)%nat) -> length x = prodn shape ->
+  dft_inverse cis_true (- sg) false shape axes (dft_forward cis_true sg false shape axes x) = x.
+Proof. exact dftn_roundtrip_true. Qed.
+Print Assumptions dft_nd_inverse_recovers_input.
+
+(* generic tool behind D3/F1: a line map applied along an axis of a flat C-order array is undone
+   by applying a left inverse of the line map along the same axis (any outer/inner sizes). *)
+Theorem along_axis_inverse : forall (A : Type) (outer n inner n' : nat) (F G : list A -> list A) (x : list A),
+  (forall l, length l = n -> length (F l) = n') ->
+  (forall l, length l = n -> G (F l) = l) ->
+  length x = (n * inner * outer)%nat ->
+  along outer n' inner n G (along outer n inner n' F x) = x.
+Proof. exact @along_inv. Qed.
+Print Assumptions along_axis_inverse.
+
+(* ------------------------------------------------------------------ *)
+(* F1: the continuous transform.  FourierTransformInverse(sign -s) o FourierTransform(sign s) = id
+   on complex spaces (no half-complex): every dimension and shape with >= 2 points on the
+   transformed axes (the code rejects 1), every axes list, EVERY per-axis shift pattern, both
+   signs, every grid offset and cell size.  The pre-processing phases (-1)^j or
+   exp(-+ i pi (1-1/n) j), the post-processing phases exp(-+ i x0 xi_k) and the interpolation
+   kernel sinc(f_k) s / sqrt(2 pi) (multiplied forward, divided backward) cancel exactly. *)
+Theorem ft_inverse_recovers_input : forall (g : list (@axis R)) (axes : list nat) (shifts : list bool)
+    (sg : R) (x : list (@cx R)),
+  sg = 1 \/ sg = -1 ->
+  (forall ax, In ax axes -> (ax < length g)%nat /\ (2 <= a_n (nth ax g dax))%nat /\ stride (nth ax g dax) <> 0) ->
+  length x = prodn (map a_n g) ->
+  ft_inverse PI (sqrt (2 * PI)) cis_true (mk_ft g axes shifts (- sg) false) false
+             (ft_forward PI (sqrt (2 * PI)) cis_true (mk_ft g axes shifts sg false) x) = x.
+Proof. exact ft_roundtrip_true. Qed.
+Print Assumptions ft_inverse_recovers_input.
+
+(* the kernel is never zero where the code evaluates it (so the backward division is defined) *)
+Theorem interpolation_kernel_nonzero : forall (s : R) (n : nat) (sh : bool) (k : nat),
+  s <> 0 -> (2 <= n)%nat -> (k < n)%nat ->
+  kernel PI (sqrt (2 * PI)) cis_true s (freq n n sh k) <> 0.
+Proof. exact kernel_true_nz. Qed.
+
+(* ------------------------------------------------------------------ *)
+(* W1: wavelet coefficient flattening.  For EVERY coefficient structure (any number of levels,
+   any number of detail arrays per level, any shapes): unflattening the flat vector with the
+   slices that precompute_raveled_slices derives from the shapes gives back every array. *)
+Theorem wavelet_unflatten_flatten : forall (A : Type) (c : @coeffs A),
+  wfc c -> unflatten (shapes_of c) (flatten c) = c.
+Proof. exact @unflatten_flatten. Qed.
+Print Assumptions wavelet_unflatten_flatten.
+
+Theorem wavelet_flat_length : forall (A : Type) (c : @coeffs A),
+  wfc c -> length (flatten c) = coeff_size (shapes_of c).
+Proof. exact @flatten_length. Qed.
+
+(* W2: reconstruction length.  For every even filter length F >= 2 (all PyWavelets families:
+   checked per wavelet by the correspondence), both length rules (periodization or not), EVERY
+   level count L >= 1 and every axis length n >= 1: waverecn never meets a length mismatch,
+   returns n + (n mod 2) points, and ODL's crop rule (drop the last one iff it is n+1, raise
+   otherwise) never raises and restores n. *)
+Theorem wavelet_reconstruction_length : forall (per : bool) (F : nat),
+  Nat.even F = true -> (2 <= F)%nat ->
+  forall L n, (1 <= n)%nat ->
+  let ls := level_lens per F (S L) n in
+  waverec_len per F true (last ls n) (rev ls) = Some (n + n mod 2)%nat.
+Proof. exact recon_len_levels. Qed.
+Print Assumptions wavelet_reconstruction_length.
+
+Theorem wavelet_crop_restores_shape : forall n,
+  crop_rule (n + n mod 2) n <> CropError /\
+  crop_len (n + n mod 2) (crop_rule (n + n mod 2) n) = n.
+Proof. exact crop_restores. Qed.
+Print Assumptions wavelet_crop_restores_shape.
